@@ -22,17 +22,17 @@ What is proved: the same under
 
 /-- (2) After a successful resolution every reference that was given a value stands for exactly the object
 its text designates from the context it is written in (through chains and cycles, kind checked at every hop). -/
-theorem resolve_ok_resolves_partial (w : World) (hT : TextIsGlobal w) (fuel : Nat) (cx : Loc) (o : Obj) (s : St)
+theorem resolve_ok_resolves_partial (w : World) (hT : TextIsGlobal w) (hC : CopyOK w) (fuel : Nat) (cx : Loc) (o : Obj) (s : St)
     (h : resolve w fuel cx o {} = .ok s) (hf : s.foreign = false) :
     ∀ r v, (r, v) ∈ s.value → ∃ f, designates w f r = some v :=
-  ((resolve_pres w hT fuel cx o {} s h hf).2 ⟨by intro i v h; simp at h, by intro t m h; simp at h⟩).1
+  ((resolve_pres w hT hC fuel cx o {} s h hf).2 ⟨by intro i v h; simp at h, by intro t m h; simp at h⟩).1
 
 /-- (2) for a whole document: `load` walks the root positions of the root document. -/
-theorem load_ok_resolves_partial (w : World) (hT : TextIsGlobal w) (fuel : Nat) (root : Loc) (s : St)
+theorem load_ok_resolves_partial (w : World) (hT : TextIsGlobal w) (hC : CopyOK w) (fuel : Nat) (root : Loc) (s : St)
     (h : load w fuel root = .ok s) (hf : s.foreign = false) :
     ∀ r v, (r, v) ∈ s.value → ∃ f, designates w f r = some v := by
   unfold load at h
-  have := pres_foldRes w _ (fun k => resolve_pres w hT fuel root k) (w.roots root) _ s h hf
+  have := pres_foldRes w _ (fun k => resolve_pres w hT hC fuel root k) (w.roots root) _ s h hf
   exact (this.2 ⟨by intro i v h; simp at h, by intro t m h; simp at h⟩).1
 
 end KinModel.Loader
